@@ -84,7 +84,7 @@ func checkC17(c *Ctx) Meta {
 		var waits, cancels []*ssa.Call
 		var storeStopped *ssa.Call
 		var loadStopped *ssa.Call
-		allInstrs(fn, func(in ssa.Instruction) {
+		allInstrsShallow(fn, func(in ssa.Instruction) {
 			cl, ok := in.(*ssa.Call)
 			if !ok {
 				return
@@ -184,7 +184,7 @@ func checkC17(c *Ctx) Meta {
 
 	// ---- WG
 	for _, fn := range fns {
-		allInstrs(fn, func(in ssa.Instruction) {
+		allInstrsShallow(fn, func(in ssa.Instruction) {
 			g, ok := in.(*ssa.Go)
 			if !ok {
 				return
@@ -225,7 +225,7 @@ func checkC17(c *Ctx) Meta {
 			key := FuncName(fn) + ":go:" + callee.Name()
 			// wg.Add on the same field dominates the go statement
 			added := false
-			for _, a := range callsIn(fn, "(*sync.WaitGroup).Add") {
+			for _, a := range callsInShallow(fn, "(*sync.WaitGroup).Add") {
 				if fa, ok := a.Call.Args[0].(*ssa.FieldAddr); ok {
 					if t, f, _, ok := fieldOfAddr(fa); ok && t+"."+f == doneField && instrDominates(a, g) {
 						added = true
@@ -294,7 +294,7 @@ func checkC17(c *Ctx) Meta {
 			continue
 		}
 		counted := false
-		allInstrs(fn, func(in ssa.Instruction) {
+		allInstrsShallow(fn, func(in ssa.Instruction) {
 			if d, ok := in.(*ssa.Defer); ok && d.Call.StaticCallee() != nil && d.Call.StaticCallee().String() == "(*sync.WaitGroup).Done" {
 				if _, ok := d.Call.Args[0].(*ssa.FieldAddr); ok {
 					counted = true
@@ -413,7 +413,7 @@ func checkC17(c *Ctx) Meta {
 			// the id removed must be the id of the request added
 			req := callArgs(add)[2]
 			okPair := false
-			allInstrs(fn, func(in ssa.Instruction) {
+			allInstrsShallow(fn, func(in ssa.Instruction) {
 				d, ok := in.(*ssa.Defer)
 				if !ok || d.Call.StaticCallee() == nil || d.Call.StaticCallee().Name() != "RemoveTask" {
 					return
@@ -514,7 +514,7 @@ func checkFractalChannels(c *Ctx, fns []*ssa.Function, li *lockInfo) {
 	}
 	closes := map[string][]closeSite{}
 	for _, fn := range fns {
-		allInstrs(fn, func(in ssa.Instruction) {
+		allInstrsShallow(fn, func(in ssa.Instruction) {
 			var cc *ssa.CallCommon
 			deferred := false
 			async := false
@@ -611,7 +611,7 @@ func checkFractalChannels(c *Ctx, fns []*ssa.Function, li *lockInfo) {
 				c.Bad(rule, key, c.Pos(in.Pos()), "send on "+shortType(org)+", which another goroutine closes, without recover guard or common lock: panics when the owner has stopped")
 			}
 		}
-		allInstrs(fn, func(in ssa.Instruction) {
+		allInstrsShallow(fn, func(in ssa.Instruction) {
 			switch x := in.(type) {
 			case *ssa.Send:
 				check(in, x.Chan)
@@ -631,7 +631,7 @@ func startedOnlyWithGo(c *Ctx, fn *ssa.Function) bool {
 	n := 0
 	plain := false
 	for g := range c.AllFuncs {
-		allInstrs(g, func(in ssa.Instruction) {
+		allInstrsShallow(g, func(in ssa.Instruction) {
 			switch x := in.(type) {
 			case *ssa.Go:
 				if x.Call.StaticCallee() == fn {
@@ -753,7 +753,7 @@ func checkRouting(c *Ctx) {
 				continue
 			}
 			fn := fn
-			allInstrs(fn, func(in ssa.Instruction) {
+			allInstrsShallow(fn, func(in ssa.Instruction) {
 				cl, ok := in.(*ssa.Call)
 				if !ok || !cl.Call.IsInvoke() || !strings.HasPrefix(cl.Call.Method.Name(), "WriteReport") {
 					return
@@ -936,7 +936,7 @@ func checkCtxPassThrough(c *Ctx, fns []*ssa.Function) {
 	rule := "C17-CTX"
 	isCtx := func(t types.Type) bool { return t != nil && t.String() == "context.Context" }
 	for _, fn := range fns {
-		root := outermost(fn)
+		root := lexicalOutermost(fn)
 		var ctxParam *ssa.Parameter
 		for _, p := range root.Params {
 			if isCtx(p.Type()) {
@@ -948,7 +948,7 @@ func checkCtxPassThrough(c *Ctx, fns []*ssa.Function) {
 			continue
 		}
 		ord := 0
-		allInstrs(fn, func(in ssa.Instruction) {
+		allInstrsShallow(fn, func(in ssa.Instruction) {
 			ci, ok := in.(ssa.CallInstruction)
 			if !ok {
 				return
